@@ -49,10 +49,11 @@ def gen_struct(rng, idx, allow_nested=True):
     """returns (name, source text incl. test fn, feature list)"""
     feats = []
     name = f"D{idx}"
-    ntp = rng.choice([0, 0, 1, 2, 3])
+    # the header features are stratified over the declaration index so that every combination occurs, whatever the seed
+    ntp = [0, 1, 2, 3, 1, 2][idx % 6]
     tparams = ['T', 'U', 'W'][:ntp]
-    lt = 'a' if rng.random() < 0.35 else None
-    constn = rng.random() < 0.3
+    lt = 'a' if (idx // 6) % 3 == 1 else None
+    constn = (idx // 18) % 2 == 1 and (idx % 5 != 0)
     ctx = dict(tparams=tparams, lt=lt, constn=constn, used=set())
     nf = rng.choice([1, 2, 3, 4, 6])
     fields, checks, mks, frame = [], [], [], []
@@ -68,6 +69,9 @@ def gen_struct(rng, idx, allow_nested=True):
         attr = ''
         if kind in ('plain', 'plainopt'):
             ty = gen_type(rng, 2, ctx) if kind == 'plain' else f"Option<{gen_type(rng, 1, ctx)}>"
+            # setter attributes are legal on any field (and without the feature) and must not change diff/apply
+            attr = rng.choice(['', '', '', '#[difference(skip_setter)]\n    ', '#[difference(setter)]\n    ', f'#[difference(setter_name = "custom_{i}")]\n    ', '#[difference(setter, skip_setter)]\n    '])
+            if attr: feats.append('setter_attr_on_plain')
             checks.append(f"        if r.{acc} != b.{acc} {{ return Err(format!(\"plain field {fname}: {{:?}} != {{:?}}\", r.{acc}, b.{acc})); }}")
             all_skipped = False
         elif kind == 'skip':
@@ -119,7 +123,7 @@ def gen_struct(rng, idx, allow_nested=True):
         fields.append(('arr_n', "    pub arr_n: [u8; N],")); mks.append("arr_n: Mk::mk(s + 7)"); frame.append("(r.arr_n != a.arr_n) as usize")
         checks.append("        if r.arr_n != b.arr_n { return Err(format!(\"plain field arr_n\")); }")
     # generics header in several spellings: inline bounds, where clause, defaults
-    bound_style = rng.choice(['none', 'inline', 'where', 'mixed'])
+    bound_style = ['none', 'inline', 'where', 'mixed'][(idx // 2) % 4]
     gl, wl = [], []
     if lt: gl.append("'" + lt)
     for j, t in enumerate(tparams):
@@ -128,7 +132,7 @@ def gen_struct(rng, idx, allow_nested=True):
         else:
             gl.append(t)
             if bound_style in ('where', 'mixed'): wl.append(f"{t}: {b}")
-    if tparams and rng.random() < 0.25 and not constn:
+    if tparams and idx % 3 == 1 and not constn:
         gl[-1] = gl[-1] + " = i64"; feats.append('default_type_param')
     if constn: gl.append("const N: usize"); feats.append('const_generic')
     if lt: feats.append('lifetime')
@@ -161,6 +165,7 @@ def gen_enum(rng, idx):
     T = 'T' if tp else 'i64'
     variants = ['A', f'B({T})', f'C {{ x: {T}, y: Option<String> }}', 'D(i64, bool)', 'E { }', 'F()']
     rng.shuffle(variants); variants = variants[:rng.randint(1, 5)]
+    if tp and not any('T' in v[1:] for v in variants): variants.append('B(T)' if not any(v.startswith('B') for v in variants) else 'G(T)')      # a declared parameter must be used (rustc E0392)
     gen = '<T>' if tp else ''
     arms = []
     for k, v in enumerate(variants):
